@@ -798,3 +798,75 @@ def check_C05(tier, seed):
                     "spec/TraceLin.tla (linearization of the acknowledged writes that extends client order and yields the "
                     "final feeds, atomic reads, acyclic lock order, counters). evaluations = trace lines; "
                     "distinct_nontrivial = validated bursts")
+
+
+# ----------------------------------------------------------------------------
+# C09
+
+def fullsync_stage(v, sd, binary, name, *, contents, max_steps, acts=("http", "expire", "jobsync"), sample=False,
+                   seed=None, fan=4, target=None, ent=("e1", "e2"), sync_ids=("s1", "s2"), max_batch=1):
+    outs = {}
+    variants = (("ref", False), ("asis", True)) if os.environ.get("VERIF_ASIS") else (("ref", False),)
+    for variant, asis in variants:
+        consts = {"DsSeq": ["a"], "Ent": set(ent), "MaxBatch": max_batch, "MaxSteps": max_steps, "Acts": set(acts),
+                  "ObsKinds": {"ent", "chg"}, "Limits": {0}, "Fan": fan, "Precreated": True, "Writable": {"a"},
+                  "TrackPre": False, "Readers": set(), "AsIs": asis, "SyncIds": set(sync_ids), "FsDs": "a"}
+        nm = "%s_%s" % (name, variant)
+        verif.gen_mc(sd, nm, "FullSync", consts, "FSpec" + ("Sample" if sample else ""),
+                     invariants=["TypeOK"], props=() if (asis or sample) else ("FsProps",), view=None if sample else "fview",
+                     contents=contents, constraint="Emit")
+        out = os.path.join(v.wd, nm + ".out")
+        st = verif.run_tlc(sd, nm, out, seed=seed if sample else None, workers=1 if sample else None)
+        if not asis:
+            v.add_tlc(st)
+        outs[variant] = (out, st)
+    out, st = outs["ref"]
+    stride_extra = 1
+    if target and st["emitted"] > target:
+        stride_extra = -(-st["emitted"] // target)
+        v.cov["stages"].append({"name": name + ":thinned", "emitted": st["emitted"], "replayed_every": stride_extra})
+    tot, results = verif.replay(binary, v.wd, out, tables="plain", adapters="go", label=name, stride_extra=stride_extra,
+                                per_world=150, rotate=True, seed=v.seed,
+                                extra_env={"VERIF_ASIS_OUT": outs["asis"][0]} if "asis" in outs else None)
+
+    def classify(r, d):
+        # known findings of C09 are identified by the history: the first step at which the pinned code is known to
+        # leave the reference (x.own = owner of the running sync according to the reference, logged by the spec)
+        fs_steps = [s for s in r.get("steps", []) if s["a"] in ("http", "expire", "jobstart", "jobbatch", "jobend")]
+        trig, which = None, None
+        for i, s in enumerate(fs_steps):
+            x = s.get("x") or {}
+            if s["a"] == "http" and not s.get("start") and s.get("id", "") == "" and x.get("own") == "job":
+                trig, which = i, "C09-lease-on-job-sync"
+                break
+            if s["a"] == "jobend" and x.get("completes") is False:
+                trig, which = i, "C09-ownerless-complete"
+                break
+        if trig is None:
+            return None
+        q = d.get("query")
+        at = q.get("index") if isinstance(q, dict) and d["kind"] == "step-answer" else len(fs_steps)
+        return which if at >= trig else None
+    v.add_replay(tot, results, classify=classify, label=name)
+    for o, _ in outs.values():
+        os.remove(o)
+
+
+def check_C09(tier, seed):
+    v = Verdict("C09", tier, seed)
+    v.wd = verif.workdir("C09")
+    sd = verif.spec_copy(v.wd)
+    binary = verif.build_harness(v.wd)
+    thorough = tier == "thorough"
+    fc = [content(1), content(2), content(1, d=True), content(2, d=True)]
+    fullsync_stage(v, sd, binary, "C09_all", contents=fc[:1] + fc[2:3], max_steps=5 if thorough else 4,
+                   target=250000 if thorough else 60000)
+    fullsync_stage(v, sd, binary, "C09_deep", contents=fc, max_steps=9 if thorough else 7, sample=True, seed=seed,
+                   fan=6 if thorough else 5, target=30000 if thorough else 8000, ent=("e1", "e2", "e3"), max_batch=2)
+    v.assumptions = ["HTTP syncs go through the real router and handler (POST /datasets/{ds}/entities with the "
+                     "universal-data-api-full-sync-* headers); job syncs drive the DatasetSink of a job configuration with "
+                     "the calls a fullsync pipeline makes (startFullSync, processEntities, endFullSync)",
+                     "lease expiry is forced through the product's own lease goroutine (refresh of the running sync's "
+                     "lease with a 1ns timeout), never inferred from wall-clock time",
+                     "a request carrying a sync id while no sync is running is a plain write (as the handler documents)"]
+    return v.finish(rule=RULE_REPLAY)
